@@ -26,6 +26,7 @@ def project_list(tier):
             out.append((f"pc:{consumer}:{by}", ("f_prodcons", {"consumer": consumer, "producer_by": by}), None))
     out.append(("pc:declared", ("f_prodcons", {"consumer": "plain", "declared": 1}), None))
     out.append(("tree", ("f_treeamend", {}), None))
+    out.append(("pc4", ("f_prodcons4", {}), None))
     out.append(("amend_static", ("f_amend", {"extra": "static"}), None))
     # external writes to an input while the build runs
     out.append(("ext:src", ("f_prodcons", {"consumer": "amend_first"}), "src.txt"))
@@ -231,7 +232,7 @@ def analyse(obs, spec):
 def jobs(tier, seed):
     out = []
     for name, proj, ext in project_list(tier):
-        for nj in (2, 3):
+        for nj in ((4,) if name == "pc4" else (2, 3)):
             bound = (2 if tier == "quick" else 3)
             if ext:
                 bound = 2 if tier == "quick" else 3
